@@ -33,13 +33,14 @@ META = {
     "level_note": "Trusted: TLC, the transcription of the statement into the invariants, harness/wire.py, SimConnection's "
                   "reactor contract (close() sets last_error during the handshake as the shipped reactors do), stand-in "
                   "lz4/snappy callables following the driver's calling convention. Bounds: reply sequences <= MaxLen "
-                  "(5 quick / 6 thorough); protocol v6-beta and DSE versions not explored.",
+                  "(5 quick / 6 thorough); versions 1,3,4,5 quick, 1-6 thorough (v6 as beta, checksummed like v5); DSE versions not explored.",
     "design_ref": "5.2 C47",
 }
 
 INVARIANTS = ["TypeOK", "ReadyOnlyAfterReadyOrAuthSuccess", "OutcomeClasses", "NegotiatedCommon",
               "CompressorAfterAccept", "ChecksummingExactlyV5"]
 ACTIONS = ["AnyOptionsReply", "AnyStartupReply", "AnyAuthReply", "AnyProtoError", "Disconnect", "Silence", "Probe"]
+MAX_REPORT = 10
 WITNESSES = ["Witness_ReadyCompressedChecksummed", "Witness_AuthFailed", "Witness_ChallengeLoop",
              "Witness_SnappyDroppedV5", "Witness_CredsReady"]
 
@@ -82,7 +83,7 @@ def describe(path):
 
 def run(ctx):
     from harness.replay import handshake as hs
-    consts = {"Versions": {1, 3, 4, 5}, "MaxLen": 5} if ctx.quick else {"Versions": {1, 2, 3, 4, 5}, "MaxLen": 6}
+    consts = {"Versions": {1, 3, 4, 5}, "MaxLen": 5} if ctx.quick else {"Versions": {1, 2, 3, 4, 5, 6}, "MaxLen": 6}
     cfg = tlc.write_cfg(os.path.join(ctx.scratch, "hs.cfg"), constants=consts, invariants=INVARIANTS, deadlock=False)
     res, states = tlc.enumerate_states("Handshake", cfg, ctx.scratch, coverage=True, timeout=1500)
     ctx.add_tlc(res, "exhaustive %s" % (consts,))
@@ -107,7 +108,7 @@ def run(ctx):
     # ---- spec -> code: every maximal behaviour
     paths = behaviours(states, consts["MaxLen"])
     covered = set()
-    replayed = 0
+    replayed = diverging = 0
     for path in paths:
         d = hs.replay(path)
         replayed += 1
@@ -118,8 +119,12 @@ def run(ctx):
         if replayed % 4001 == 1:
             ctx.sample(dict(describe(path), direction="spec->code", outcome=last["outcome"]))
         if d:
-            ctx.violation("real connection diverges from Handshake.tla at reply %d (%s): %s" % (d["step"], d["action"], d["diff"]),
-                          replay=dict(describe(path), divergence=d), signature=signature(d))
+            diverging += 1
+            if diverging <= MAX_REPORT:
+                ctx.violation("real connection diverges from Handshake.tla at reply %d (%s): %s" % (d["step"], d["action"], d["diff"]),
+                              replay=dict(describe(path), divergence=d), signature=signature(d))
+    if diverging > MAX_REPORT:
+        print("... %d diverging behaviours in total" % diverging)
     if len(covered) != len(states):
         raise tlc.MachineryError("replay did not visit every state of the model (%d of %d)" % (len(covered), len(states)))
     ctx.traces_validated += replayed
@@ -136,11 +141,12 @@ def run(ctx):
     bad2[-1]["outcome"] = "conn_error"
     bad3 = [dict(s) for s in victim]
     bad3[-1]["sent"] = tuple(dict(f, seg=False) if f["op"] == "QUERY" else f for f in bad3[-1]["sent"])
-    if not (hs.replay(bad) and hs.replay(bad2) and hs.replay(bad3)) or hs.replay(victim) or hs.replay(v2):
+    clean = ctx.violations == 0          # with a diverging driver the untouched behaviours do not replay cleanly either
+    if clean and (not (hs.replay(bad) and hs.replay(bad2) and hs.replay(bad3)) or hs.replay(victim) or hs.replay(v2)):
         raise tlc.MachineryError("binding self-test failed: corrupted expectation not detected by replay")
 
     # ---- code -> spec: recorded random handshakes validated by TLC
-    tconsts = {"Versions": {1, 2, 3, 4, 5}, "MaxLen": 12}
+    tconsts = {"Versions": {1, 2, 3, 4, 5, 6}, "MaxLen": 12}
     n_tr = 400 if ctx.quick else 5000
     traces = [hs.record(ctx.rng, tconsts["Versions"], 10) for _ in range(n_tr)]
     good = len(traces)
@@ -160,10 +166,12 @@ def run(ctx):
         ctx.violation("invariant %s violated in a state of a recorded handshake" % tres.invariant,
                       replay={"trace": [dict(s) for _, s in tres.trace()][-3:]}, signature="trace-inv:%s" % tres.invariant)
         return
-    if prog[good] != 3 or prog[good + 1] > len(c2) or prog[good + 2] != len(c3):
+    rejected = sum(1 for i in range(good) if prog[i] != len(traces[i]) + 1)
+    if clean and rejected == 0 and (prog[good] != 3 or prog[good + 1] > len(c2) or prog[good + 2] != len(c3)):
         raise tlc.MachineryError("binding self-test failed: corrupted/dropped trace accepted (%s)" % (prog[good:],))
-    ctx.note("binding_selftest", {"replay_corruptions_detected": 3, "trace_corrupted_rejected": 2, "trace_dropped_rejected": 1})
-    accepted = 0
+    ctx.note("binding_selftest", {"replay_corruptions_detected": 3, "trace_corrupted_rejected": 2, "trace_dropped_rejected": 1}
+             if clean and rejected == 0 else "skipped: divergences already reported")
+    accepted = reported = 0
     for i in range(good):
         t = traces[i]
         if prog[i] == len(t) + 1:
@@ -173,6 +181,9 @@ def run(ctx):
             continue
         ev = t[prog[i] - 1]
         m = ev.get("m", {})
+        reported += 1
+        if reported > MAX_REPORT:
+            continue
         ctx.violation("recorded handshake rejected by Handshake.tla at event %d: %s" % (prog[i], ev),
                       replay={"events": t[:prog[i]]},
                       signature="trace:%s%s" % (m.get("k", ev["e"]), ("(%s)" % m["kind"]) if m.get("kind") else ""))
@@ -183,7 +194,7 @@ def run(ctx):
     ctx.note("traces_accepted", accepted)
     ctx.evaluations = replayed + good
     ctx.assumptions += [
-        "reply sequences bounded by MaxLen; versions 1-5 (v6-beta / DSE versions not explored)",
+        "reply sequences bounded by MaxLen; protocol versions 1-6 (v6 with allow_beta_protocol_version; DSE versions not explored)",
         "SimConnection reproduces the reactors' close() contract; harness/wire.py encodes/decodes frames and segments correctly",
         "lz4/snappy replaced by stand-ins with the driver's calling convention (real libraries are not installed)",
         "ERROR kinds other than bad credentials after the credentials/auth response may be classified either way "
